@@ -64,6 +64,11 @@ def gen_cases(ctx):
                 for mask in itertools.product([0, 1], repeat=len(ts)):
                     cases.append(("threshold", dict(ts=ts, mask=list(mask), st=st, en=en)))
     cases.append(("threshold", dict(ts=[], mask=[], st=[], en=[])))
+    # a series with a single timestamp (or duplicates of one) built without time_support has the EMPTY default support:
+    # Tsd([2.], [5.]).threshold(0.) reaches the kernel with samples and no epoch at all
+    for ts in ([2], [0], [2, 2], [2, 2, 2]):
+        for mask in itertools.product([0, 1], repeat=len(ts)):
+            cases.append(("threshold", dict(ts=ts, mask=list(mask), st=[], en=[])))
     for A in sets:
         for B in sets:
             a = dict(s1=A[0], e1=A[1], s2=B[0], e2=B[1])
@@ -208,7 +213,7 @@ def run(ctx):
 def replay(ctx, rec):
     i = rec["input"]
     if i["kernel"].startswith("_jit"):
-        print("re-run the check to replay event-trigger-average cases"); return False
+        return None      # main re-executes the recorded run
     cf = os.path.join(WORK, "c15-replay.json")
     json.dump([[i["kernel"], i["args"]]], open(cf, "w"))
     run_sub(["-m", "harness.interp", cf, cf + ".o"], {"NUMBA_DISABLE_JIT": "1"})
